@@ -26,8 +26,8 @@ RULE = ('(a) schema-valid documents generated WITHOUT the library (oracle deriva
         '(no silent loss): parse_musicxml raises, or the multisets of element paths, (path, attribute, value) and '
         '(path, text) of the input are contained in those of the output.  Non-trivial: (a) the document uses a '
         'repeated group or a namespaced / name attribute; (b) the mutant is well-formed and was not rejected.')
-ASSUMPTIONS = ['leading/trailing white space of xs:string content is not generated in (a): whether it is "insignificant" '
-               'is not settled by the statement']
+ASSUMPTIONS = ['leading/trailing white space is generated only for xs:string-typed element content (significant per XML '
+               'Schema: whiteSpace=preserve); token-derived content is compared after collapsing']
 EXHAUSTIVE = False
 
 NS_ATTRS = {'xml:lang', 'xml:space', 'name'}
@@ -63,7 +63,10 @@ def draw_doc(data, el, depth, flags, budget, inside):
         txt = data.draw(st.sampled_from(cands or ['a']))
         if ti.union is None and ti.primitive == 'string' and ti.enumeration is None and not ti.patterns \
                 and 'xs:NMTOKEN' not in ti.chain and data.draw(st.integers(0, 2)) == 0:
-            txt = data.draw(st.sampled_from(['Ünïcødé ♯', '𝄞 clef', 'x < y & z', 'q"uote\'s', 'two  inner', 'a']))
+            txt = data.draw(st.sampled_from(['Ünïcødé ♯', '𝄞 clef', 'x < y & z', 'q"uote\'s', 'two  inner', 'a',
+                                             ' lead', 'trail ', '  both\t']))
+            if txt != txt.strip():
+                flags.add('surrounding-whitespace')
         plan['text'] = spell(data, tt, txt)
     if s.content_kind(t) == 'elements':
         dfa = s.dfa(t)
